@@ -66,6 +66,7 @@ func init() {
 		"strconv.baseError":    opaqueErrorPtr,
 		"strconv.bitSizeError": opaqueErrorPtr,
 		"strconv.ParseFloat":   strconvParseFloat,
+		"strconv.FormatFloat":  strconvFormatFloat,
 		"strconv.Itoa":         strconvItoa,
 		"(*strings.Builder).WriteByte":   sbWriteByte,
 		"(*strings.Builder).WriteString": sbWriteString,
@@ -798,6 +799,15 @@ func bytesTrimSpace(in *Interp, fn *ssa.Function, args []value) value {
 
 // ---------------------------------------------------------------------------------------------
 // strconv
+
+// FormatFloat: native for concrete arguments (a symbolic float is a cut).
+func strconvFormatFloat(in *Interp, fn *ssa.Function, args []value) value {
+	f, ok := args[0].(float64)
+	if !ok {
+		panic(cut("FormatFloat of a symbolic float"))
+	}
+	return strconv.FormatFloat(f, byte(in.concInt(args[1], "FormatFloat fmt")), int(in.concInt(args[2], "FormatFloat prec")), int(in.concInt(args[3], "FormatFloat bitSize")))
+}
 
 func strconvItoa(in *Interp, fn *ssa.Function, args []value) value {
 	switch x := args[0].(type) {
